@@ -40,6 +40,8 @@ inline long long now_ticks = 0;        // virtual clock (ms)
 inline unsigned long notifies = 0;     // notify_all / notify_one calls on interposed condition variables
 inline bool single_thread = true;      // wait_until advances the clock instead of blocking
 inline std::vector<std::string> *trace = nullptr;   // wait_until events (run mode)
+inline long long reads = 0;            // clock reads since the clock last advanced / the case started
+inline long long spins = 0;            // consecutive waits that did not advance the clock
 inline long long horizon = 0;          // run mode: a wait beyond this tick means "blocked forever"
 
 [[noreturn]] inline void fatal(const char *what, int rc) {
@@ -57,7 +59,11 @@ struct verif_system_clock {
     using period = duration::period;
     using time_point = std::chrono::time_point<verif_system_clock, duration>;
     static constexpr bool is_steady = false;
-    static time_point now() noexcept { return time_point(duration(vt::now_ticks)); }
+    static time_point now() noexcept {
+        // virtual time only advances in wait_until: a thread that keeps reading the clock without ever blocking spins
+        if (++vt::reads > 200000) vt::fatal("livelock: the scheduling thread polls the clock without ever blocking", 46);
+        return time_point(duration(vt::now_ticks));
+    }
 };
 }  // namespace chrono
 
@@ -116,7 +122,14 @@ public:
         // the only thread blocks until the deadline: nobody can notify, so the wait ends exactly at tp
         if (t > vt::horizon) vt::fatal("hang: the scheduling thread blocks with no sleeper that could wake it", 43);
         if (vt::trace) vt::trace->push_back("wait:" + std::to_string(vt::now_ticks) + "->" + std::to_string(t));
-        if (t > vt::now_ticks) vt::now_ticks = t;
+        if (t > vt::now_ticks) {
+            vt::now_ticks = t;
+            vt::spins = 0;
+            vt::reads = 0;
+        } else if (++vt::spins > 1000) {
+            // waiting for a deadline that has already passed returns at once: the scheduling thread spins
+            vt::fatal("livelock: the scheduling thread keeps waiting for a time point that is not in the future", 46);
+        }
         return std::cv_status::timeout;
     }
 };
@@ -398,6 +411,8 @@ int main() {
         auto w = vh::split(line);
         if (w.empty() || w[0] != "case") continue;
         std::cout << "case " << w[1] << "\n";
+        vt::reads = 0;
+        vt::spins = 0;
         const std::string kind = w.size() > 2 ? w[2] : "";
         if (kind == "man") run_manual(std::cin);
         else if (kind == "run") run_start(std::cin, w.size() > 3 ? atoll(w[3].c_str()) : 0);
